@@ -43,6 +43,8 @@ func runC10(w *World, r *Report) {
 	c10LabelsTotal(w, r)
 	c10TimeLossless(w, r)
 	c10SearchOrder(w, r)
+	c10LabelSource(w, r)
+	c10DecodePure(w, r)
 }
 
 func returnsGlobal(rp RetPath, name string) bool {
